@@ -9,6 +9,7 @@ use serde_json::{json, Value};
 
 mod keys;
 mod c04;
+mod verify;
 
 pub fn err_name(e: &in_toto::Error) -> String {
     let d = format!("{:?}", e);
@@ -32,6 +33,13 @@ pub fn guarded<F: FnOnce() -> Value>(f: F) -> Value {
     }
 }
 
+pub fn guarded_result<T, F: FnOnce() -> T>(f: F) -> Result<T, String> {
+    match catch_unwind(AssertUnwindSafe(f)) {
+        Ok(v) => Ok(v),
+        Err(p) => Err(if let Some(s) = p.downcast_ref::<String>() { s.clone() } else if let Some(s) = p.downcast_ref::<&str>() { s.to_string() } else { "?".to_string() }),
+    }
+}
+
 fn main() {
     let args: Vec<String> = std::env::args().collect();
     if args.len() < 2 {
@@ -47,6 +55,7 @@ fn main() {
         let kind = sc["kind"].as_str().unwrap_or("");
         let r = guarded(|| match kind {
             "metablock_verify" => c04::run(&pool, sc),
+            "verify" => verify::run(&pool, sc),
             _ => json!({"outcome": "unsupported-kind"}),
         });
         out.push(r);
